@@ -27,7 +27,7 @@ VARIABLES input, pos, rbuf, eof, readable, cended, out, done, errUsed, lastPend,
 vars == <<input, pos, rbuf, eof, readable, cended, out, done, errUsed, lastPend, act>>
 View == <<input, pos, rbuf, eof, readable, cended, out, done, errUsed, lastPend>>
 
-L == INSTANCE LinesCodec WITH StripAllCR <- FALSE, SplitAtCR <- FALSE, DropFinal <- FALSE, LossyUtf8 <- FALSE, EncodeLFs <- 1
+L == INSTANCE LinesCodec WITH StripAllCR <- FALSE, SplitAtCR <- FALSE, DropFinal <- FALSE, LossyUtf8 <- FALSE, EncodeLFs <- 1, EofSkipsDecode <- FALSE
 
 None == [k |-> "none", v |-> <<>>]
 Ok(f) == [k |-> "ok", v |-> f]
